@@ -255,6 +255,21 @@ type x06Exp struct {
 	Ints        [][][]any    `json:"ints"`
 	Strs        [][][]string `json:"strs"`
 	StrsWritten [][][]string `json:"strs_written"`
+	// obiannotate --add-lca-in
+	Slot       string            `json:"slot"`
+	Tol        int               `json:"E"`
+	LRecs      []x06LcaRec       `json:"lrecs"`
+	Keys       map[string]string `json:"keys"`
+	KeySets    [][][]string      `json:"keysets"`
+	Acc        [][]x06Acc        `json:"acc"`
+	AccWritten [][]x06Acc        `json:"acc_written"`
+}
+
+// x06Acc: an acceptable answer (taxon c, reported error between lo and hi, in 1/1000)
+type x06Acc struct {
+	C  int `json:"c"`
+	Lo int `json:"lo"`
+	Hi int `json:"hi"`
 }
 
 type x06Case struct {
@@ -516,6 +531,8 @@ func x06Replay(env *Env) {
 			c := &cases[i]
 			if c.Exp.Q != nil {
 				x06ReplayFind(env, bindir, dir, c)
+			} else if c.Exp.LRecs != nil {
+				x06ReplayLca(env, bindir, dir, c)
 			} else {
 				x06ReplayAnnot(env, bindir, dir, c)
 			}
